@@ -30,7 +30,9 @@ SHRINK_KEY = ["tweaks", "acts"]
 RULE = (
     "case = one scenario (a shipped YAML file; one episode of a shipped episode-schedule folder; or a generated "
     "scenario = gen_scenario spec + a list of tweaks, each a documented key written into the dict) plus a "
-    "re-serialisation (seed of the mapping-key permutation, YAML style) and a fixed pseudo-random action sequence. "
+    "re-serialisation (seed of the mapping-key permutation, YAML style) and a fixed pseudo-random action sequence, "
+    "optionally built right after a 'polluter' scenario with the opposite process-wide settings (NMNE capture, airspace "
+    "capacities, thresholds, defaults). "
     "Oracle A compares the inventory derived from the dict with the inventory read from the built objects (both "
     "directions); Oracle B loads the original and the re-serialised file and compares initial state and trajectory. "
     "Non-trivial = the scenario has >=2 node types, >=1 node with an ACL / route table and >=3 software options "
@@ -46,6 +48,11 @@ ASSUMPTIONS = [
     "config, otherwise from its config",
     "PyYAML safe_load of the re-serialised text is strictly equal (types included) to the original dict — asserted by "
     "the harness for every variant before it is used",
+    "a scenario that is silent about nmne_config / airspace capacities gets the NMNEConfig field defaults / the "
+    "frequencies' own capacities, whatever was built before it in the same process",
+    "an office-lan node set is checked on facts that hold for any layout: PC count/addresses/gateway, every PC on one "
+    "switch of the set, >= ceil(n/23) edge switches (+ core when > 1), every link of the set carries the declared "
+    "bandwidth, PCs and router connected through the set's own links",
     "files on the deny-list are malformed on purpose or need plugins (reasons in coverage.denied)",
 ]
 
@@ -200,7 +207,8 @@ def load_text(text: str, cfg: Dict):
 
 DIAG = {"dupnode": "duplicate-hostname", "sw-unrouted": "software-not-in-software-manager",
         "sw-not-on-node": "software-manager-entry-not-on-node", "duplink": "duplicate-link",
-        "ifcount-disagree": "interface-maps-disagree", "agent-ref-disagree": "agent-ref-disagrees"}
+        "ifcount-disagree": "interface-maps-disagree", "agent-ref-disagree": "agent-ref-disagrees",
+        "nmne-disagree": "interfaces-disagree-on-nmne-config"}
 
 
 def _sig_key(k: tuple, inv: ref_config.Inventory, built: Dict) -> str:
@@ -222,6 +230,8 @@ def _sig_key(k: tuple, inv: ref_config.Inventory, built: Dict) -> str:
         return f"{kind}:{ntype}"
     if kind == "agent":
         return "agent:" + (str(k[2]) if len(k) > 2 else "type")
+    if kind in ("nmne", "airspace"):
+        return f"{kind}:{k[1]}"
     return kind
 
 
@@ -259,6 +269,8 @@ def compare(inv: ref_config.Inventory, built: Dict, res: CaseResult) -> None:
             res.violate("mismatch:file-size", f"{h}:{fo}/{hit[0]}: declared size {size}, built {bsize}")
         if ftype is not None and btype != ftype:
             res.violate("mismatch:file-type", f"{h}:{fo}/{hit[0]}: declared type {ftype}, built {btype}")
+    for ns in inv.nodesets:
+        check_nodeset(ns, built, res)
     sysnames = set(ref_config.SYSTEM_SOFTWARE["host"])
     for k, v in built.items():
         if k[0] == "swcount":
@@ -274,6 +286,70 @@ def compare(inv: ref_config.Inventory, built: Dict, res: CaseResult) -> None:
         if inv.allowed_extra(k):
             continue
         res.violate(f"extra:{_sig_key(k, inv, built)}", f"{k} = {v!r} is in the built simulation but not in the file")
+
+
+def check_nodeset(ns: Dict, built: Dict, res: CaseResult) -> None:
+    """Wiring facts of an office-lan node set, read from the built link graph (layout-independent)."""
+    suf = ns["suffix"]
+    links = [(k, v) for k, v in built.items() if k[0] == "link" and (k[1].endswith(suf) or k[3].endswith(suf))]
+    for k, bw in links:
+        if bw != ns["bandwidth"]:
+            kind = "pc-link" if (k[1].startswith("pc_") or k[3].startswith("pc_")) else "uplink"
+            res.violate(f"nodeset:link-bandwidth:{kind}",
+                        f"node set {ns['name']}: link {k[1]}:{k[2]} <-> {k[3]}:{k[4]} has bandwidth {bw}, the node set "
+                        f"declares {ns['bandwidth']}")
+    adj: Dict[str, set] = {}
+    for k, _ in links:
+        adj.setdefault(k[1], set()).add(k[3])
+        adj.setdefault(k[3], set()).add(k[1])
+    switches = {k[1] for k, t in built.items() if k[0] == "node" and k[1].endswith(suf) and t == "switch"}
+    if len(switches) < ns["min_switches"]:
+        res.violate("nodeset:too-few-switches", f"node set {ns['name']}: {len(switches)} switches for {len(ns['pcs'])} PCs")
+    for pc in ns["pcs"]:
+        peers = adj.get(pc, set())
+        if len(peers) != 1 or not (peers <= switches):
+            res.violate("nodeset:pc-wiring", f"node set {ns['name']}: {pc} is linked to {sorted(peers)} (one switch expected)")
+            break
+    # everything the node set creates hangs together: all PCs (and the router, their default gateway) are reachable
+    # from the first PC over the node set's own links
+    if ns["pcs"]:
+        seen, todo = {ns["pcs"][0]}, [ns["pcs"][0]]
+        while todo:
+            for y in adj.get(todo.pop(), ()):
+                if y not in seen:
+                    seen.add(y)
+                    todo.append(y)
+        lost = [p for p in ns["pcs"] if p not in seen]
+        if lost:
+            res.violate("nodeset:not-connected:pc", f"node set {ns['name']}: {lost[:3]} not reachable from {ns['pcs'][0]}")
+        if ns["router"] and ns["router"] not in seen:
+            res.violate("nodeset:not-connected:router",
+                        f"node set {ns['name']}: {ns['router']} (every PC's default gateway) has "
+                        f"{len(adj.get(ns['router'], ()))} links and is not reachable from the PCs")
+
+
+# ---------------------------------------------------------------------------------------------------------------------
+# building after another scenario (class- / module-level loader state must not leak from one build into the next)
+
+
+def polluter(cfg: Dict) -> Dict:
+    """A small scenario whose process-wide settings are the OPPOSITE of the scenario under test: NMNE capture, airspace
+    capacity overrides, thresholds, defaults block, io settings."""
+    from ..simutil import lan_cfg
+
+    net = (cfg.get("simulation") or {}).get("network") or {}
+    on = bool((net.get("nmne_config") or {}).get("capture_nmne", False))
+    p = lan_cfg(2)
+    p["simulation"]["network"]["nmne_config"] = {
+        "capture_nmne": not on, "nmne_capture_keywords": ["POLLUTER", "DELETE", "SELECT"],
+        "capture_by_direction": False, "capture_by_ip_address": True, "capture_by_protocol": True,
+        "capture_by_port": True, "capture_by_keyword": True}
+    p["simulation"]["network"]["airspace"] = {"frequency_max_capacity_mbps": {"WIFI_2_4": 1.5, "WIFI_5": 0.0}}
+    p["game"]["thresholds"] = {"nmne": {"high": 9, "medium": 8, "low": 7}}
+    p["defaults"] = {"node_scan_duration": 1, "folder_scan_duration": 1, "folder_restore_duration": 1,
+                     "service_fix_duration": 1, "service_restart_duration": 1}
+    p["io_settings"] = dict(IO_OFF)
+    return p
 
 
 # ---------------------------------------------------------------------------------------------------------------------
@@ -410,7 +486,10 @@ def run_case(case: Dict) -> CaseResult:
     for t in sorted(types):
         res.label(f"nodetype:{t}")
 
-    # Oracle A
+    # Oracle A (optionally after another scenario has been built in this process)
+    if case.get("after"):
+        build_from_dict(polluter(cfg))  # a fixed well-formed scenario: an exception here is a harness error
+        res.label("after-another-build")
     try:
         if case["src"] == "schedule":
             game = build_schedule_episode(case["folder"], case["episode"])
@@ -458,7 +537,8 @@ def gen_case(draw, steps: int):
     spec = draw(gen_scenario.spec_strategy())
     tweaks = draw(st.lists(c20_gen.tweak_strategy(), min_size=0, max_size=10))
     return {"src": "gen", "spec": spec, "tweaks": tweaks, "perm": draw(st.integers(0, 2**31)),
-            "scope": draw(scope_strategy()), "style": draw(style_strategy()), "acts": draw(acts_strategy(steps))}
+            "scope": draw(scope_strategy()), "style": draw(style_strategy()), "acts": draw(acts_strategy(steps)),
+            "after": draw(st.booleans())}
 
 
 def shipped_b_case(files: List[str], steps: int):
@@ -505,6 +585,8 @@ def worker(ctx: Ctx):
                       "acts": [3 * i + j * 7 for j in range(nsteps)],
                       "style": {"flow": [False, None, True][(i + ctx.seed) % 3], "quote": [None, '"', "'"][(i // 3 + ctx.seed) % 3],
                                 "aliases": bool(i % 2)}})
+    for f in files:
+        cases.append({"src": "shipped", "file": f, "after": True})
     for folder in SCHEDULE_DIRS:
         n = schedule_len(folder)
         for ep in range(n + 2):
@@ -513,8 +595,10 @@ def worker(ctx: Ctx):
     for fam in ("LAN", "ROUTED", "DMZ"):
         spec = c20_gen.base_spec(fam)
         cases.append({"src": "gen", "spec": spec, "tweaks": []})
+        for nm in (None, True, False):  # nmne_config absent / capture on / capture off, each after the opposite polluter
+            cases.append({"src": "gen", "spec": dict(spec, nmne=nm), "tweaks": [], "after": True})
         for j, tw in enumerate(c20_gen.ALPHABET):
-            c = {"src": "gen", "spec": spec, "tweaks": [tw]}
+            c = {"src": "gen", "spec": spec, "tweaks": [tw], "after": bool(j % 2)}
             if not quick:
                 c.update({"perm": ctx.seed * 31 + j, "scope": "all", "style": {}, "acts": [5 * j + 3 * q for q in range(4)]})
             cases.append(c)
